@@ -100,7 +100,9 @@ static void imm_tok(struct instr *instr_buffer, char *imme) {
   instr_buffer->imm = true;
   int base = RADIX_10;
   imme = strtok_r(imme, " ", &saved_saved);
-  bool hex = imme[1] == 'x' || imme[2] == 'x';
+  // "0x.." or "-0x..": do not look behind the terminator of a 1-character
+  // immediate
+  bool hex = imme[1] == 'x' || (imme[1] != '\0' && imme[2] == 'x');
   if (hex)
     base = RADIX_16;
   // smart mode: only a hexadecimal literal written with all 16 digits keeps
